@@ -1,6 +1,6 @@
 //! (d) silhouette score by its O(n^2) definition, clusters of at least two distinct points.
 
-use crate::bound::{agrees, Ctx, B, U32, U64};
+use crate::bound::{agrees, near, Ctx, B, U32, U64};
 use linfa::dataset::DatasetBase;
 use linfa::metrics::SilhouetteScore;
 use linfa::Float;
@@ -135,7 +135,7 @@ fn run<F: Float>(c: &SilCase, ctx: Ctx, obs: &mut Obs) {
         let dsp = DatasetBase::new(rp, lp);
         if let Some(Ok(v)) = obs.call("silhouette_score(permuted)", || dsp.silhouette_score()) {
             let v = f64_of(v);
-            obs.ensure((v - got).abs() <= 2.0 * want.tol(ctx), "perm:silhouette", || {
+            obs.ensure(near(v, got, 2.0 * want.tol(ctx)), "perm:silhouette", || {
                 format!("silhouette_score changed under a permutation of the samples: {v} vs {got}")
             });
         }
